@@ -29,6 +29,9 @@ def oracle(chk):
                 ("Cosine", qs.Cosine(s(), s()), True), ("Celerite", qs.Celerite(jnp.asarray(1.3), jnp.asarray(0.2), s(0.4, 1), s(0.8, 2)), True),
                 ("SHO-crit", qs.SHO(s(), jnp.asarray(0.5), s()), True), ("SHO-under", qs.SHO(s(), s(0.52, 4), s()), True),
                 ("SHO-over", qs.SHO(s(), s(0.05, 0.49), s()), True),
+                ("SHO-under-Q0.6", qs.SHO(s(), jnp.asarray(0.6), s()), True),
+                ("SHO-under-slow", qs.SHO(jnp.asarray(2e-4), jnp.asarray(0.51), s()), True),
+                ("SHO-over-slow", qs.SHO(jnp.asarray(1e-5), jnp.asarray(0.2), s()), True),
                 ("SHO-under-edge", qs.SHO(s(), jnp.asarray(0.5 + 1.001e-3), s()), True),
                 ("SHO-over-edge", qs.SHO(s(), jnp.asarray(0.5 - 1.001e-3), s()), True),
                 ("CARMA", qs.CARMA(alpha=jnp.array([1.0, 1.2]), beta=jnp.array([1.0, 3.0])), False)]
